@@ -89,7 +89,7 @@ def event(e):
 
 def case_term(c):
     init = c['init']
-    m0 = '(MSt %s [] %s %s)' % (meta(init['meta']), C.coq_bool(init['done']), ST[init['settle']])
+    m0 = '(MSt %s [] %s %s %s)' % (meta(init['meta']), C.coq_bool(init['done']), ST[init['settle']], 'None' if init['dl'] is None else '(Some %s)' % Z(init['dl']))
     script = lst('(Call %s %s)' % (lst(action(a) for a in s['pre']), outcome(s['res'])) for s in c['script'])
     invs = lst('(Inv %s %s %s)' % (lst(event(e) for e in i['trace']), outcome(i['res']), vstate(i['after'])) for i in c['invs'])
     return '(C19 %s %s %s %s)' % (lst(mw(m) for m in c['mws']), script, m0, invs)
@@ -141,6 +141,8 @@ def run_once(ctx, res, binary, seed, n, thr, witness, tag):
         for k in set(ks): res.count('mw=%s' % k)
         if 'retry' in ks and len(ks) > 1: res.count('retry_composed')
         res.count('in_flight=%d' % c['flight'])
+        if c['init']['dl'] is not None: res.count('arrives_with_deadline')
+        if c['init']['done']: res.count('arrives_with_dead_context')
         res.count('invocations=%d' % len(c['invs']))
         for s in c['script']:
             res.count('outcome=%s' % s['res']['k'])
